@@ -226,7 +226,15 @@ def build(spec: dict) -> Built:
         else:
             b.df = DLISFile(**kw)
         for lfs in spec.get('lfs', [{}]):
-            b.lfs.append(b.df.add_logical_file(**lfs))
+            if lfs.get('as_object'):
+                # the user hands in their own FileHeaderItem (public API: add_logical_file(file_header=...))
+                from dliswriter import eflr_types
+                fh = eflr_types.FileHeaderItem(lfs.get('fh_id', 'FILE-HEADER'), parent=eflr_types.FileHeaderSet(),
+                                               sequence_number=lfs.get('fh_sequence_number', 1),
+                                               identifier=lfs.get('fh_identifier', '0'))
+                b.lfs.append(b.df.add_logical_file(file_header=fh))
+            else:
+                b.lfs.append(b.df.add_logical_file(**{k: v for k, v in lfs.items() if k != 'as_object'}))
     except Exception as e:      # noqa
         b.error = _exc(e)
         return b
@@ -287,8 +295,21 @@ def run_op(b: Built, i: int, op: dict, source: str = 'inline') -> None:
         b.handles[i] = lf.add_no_format_frame_data(b.handles[op['target']], payload)
     elif kind == 'assign':
         tgt = b.handles[op['target']]
-        attr = getattr(tgt, schema.item_attr_name(op['target_op'], op['kw']))
-        setattr(attr, op.get('part', 'value'), mat_checked(op['value'], b))
+        an = schema.item_attr_name(op['target_op'], op['kw'])
+        val = mat_checked(op['value'], b)
+        part = op.get('part', 'value')
+        via = op.get('via')
+        if via == 'set_attributes' and not (part == 'value' and val is None):
+            # the other public route for a later assignment: item.set_attributes(name=value | {'units': ..} | AttrSetup(..))
+            if part == 'value':
+                tgt.set_attributes(**{an: val})
+            elif op.get('via_form') == 'AttrSetup':
+                from dliswriter import AttrSetup
+                tgt.set_attributes(**{an: AttrSetup(units=val)})
+            else:
+                tgt.set_attributes(**{an: {'units': val}})
+        else:
+            setattr(getattr(tgt, an), part, val)
     elif kind == 'setattr':
         setattr(b.handles[op['target']], op['field'], mat_checked(op['value'], b))
     elif kind == 'set_header':
